@@ -121,6 +121,7 @@ class Decompiler:
         results = DecompilerResults()
         current_section = []
         current_section_start_index = None
+        current_section_end_index = None
         # current_section_qb = []  # TODO: populate this
         qc = qc.copy(True)
 
@@ -130,16 +131,16 @@ class Decompiler:
                 if current_section_start_index is None:
                     current_section_start_index = i
                 current_section.append((g, w, p))
+                # the section ends right after its last z-basis gate
+                current_section_end_index = i + 1
             elif issubclass(g.__class__, gates.NopGate):
                 pass
             elif len(current_section) > 0:
-                end = i
-                if issubclass(qc.gates[i - 1][0].__class__, gates.NopGate):
-                    end -= 1
-
                 exps = self.__exps_of_section(qc, current_section)
                 res = DecompiledSection(
-                    current_section, exps, (current_section_start_index, end)
+                    current_section,
+                    exps,
+                    (current_section_start_index, current_section_end_index),
                 )
                 results.append(res)
                 current_section = []
